@@ -227,9 +227,20 @@ pub fn encoders(ctx: &mut Ctx, count: usize) {
         ctx.rng = r;
         let mut buf = prefix.clone();
         {
+            // items enter either through append_parameterized or through append(&T) with a real
+            // Encode value of the same bytes (Vec<u8> for variable items, u16/u32/u64 for fixed ones)
             let mut e = SszEncoder::container(&mut buf, nf);
             for (f, b) in &items {
-                e.append_parameterized(*f, |out| out.extend_from_slice(b));
+                let plain = ctx.rng.chance(1, 2);
+                if plain && !*f {
+                    e.append(&b.clone());
+                } else if plain && *f && b.len() == 2 {
+                    e.append(&u16::from_le_bytes([b[0], b[1]]));
+                } else if plain && *f && b.len() == 4 {
+                    e.append(&u32::from_le_bytes([b[0], b[1], b[2], b[3]]));
+                } else {
+                    e.append_parameterized(*f, |out| out.extend_from_slice(b));
+                }
             }
             e.finalize();
         }
@@ -374,19 +385,29 @@ fn gen_listvar_bytes(r: &mut Rng) -> Vec<u8> {
 
 pub fn listvars(ctx: &mut Ctx, count: usize) {
     let kinds = ["vec", "vec", "bounded:0", "bounded:1", "bounded:2", "bounded:3", "refusing"];
-    let mut cases: Vec<Vec<u8>> = vec![vec![], vec![4, 0, 0, 0], vec![8, 0, 0, 0, 8, 0, 0, 0]];
+    let mut cases: Vec<Vec<u8>> = vec![];
+    for _ in 0..7 {
+        cases.push(vec![]);
+    }
+    for _ in 0..7 {
+        cases.push(vec![4, 0, 0, 0]);
+    }
+    for _ in 0..7 {
+        cases.push(vec![8, 0, 0, 0, 8, 0, 0, 0]);
+    }
     for _ in 0..count {
         let mut r = ctx.rng.clone();
         cases.push(gen_listvar_bytes(&mut r));
         ctx.rng = r;
     }
-    for bytes in cases {
+    for (ci, bytes) in cases.into_iter().enumerate() {
         let announced = if bytes.len() >= 4 {
             (u32::from_le_bytes([bytes[0], bytes[1], bytes[2], bytes[3]]) / 4) as usize
         } else {
             0
         };
-        let kind = *ctx.rng.pick(&kinds);
+        // the fixed corpus (empty input, minimal tables) meets every collection kind
+        let kind = if ci < 21 { kinds[ci % 7] } else { *ctx.rng.pick(&kinds) };
         let mut limits: Vec<Option<usize>> = vec![None, Some(0)];
         for m in [announced.wrapping_sub(1), announced, announced + 1] {
             if m < (1 << 40) {
